@@ -23,8 +23,8 @@
 EXTENDS Naturals, Sequences, FiniteSets, TLC
 
 Locs == {"Unknown", "GoMod", "GOPATH", "GoPkg", "Stdlib"}
-RelShapes == {"empty", "github3", "github3ver", "github3pseudo", "githubshort", "golangx", "golangxver", "golangother",
-              "otherhost", "otherhostver", "otherhostat", "vendorgithub", "nodir"}
+RelShapes == {"empty", "github3", "github3ver", "github3verodd", "github3pseudo", "githubshort", "golangx", "golangxver", "golangother",
+              "otherhost", "otherhostver", "otherhostat", "otherhostatdir", "vendorgithub", "nodir"}
 Lit(s) == [kind |-> "lit", text |-> s, san |-> "lit"]
 Taint(f, san) == [kind |-> "taint", text |-> f, san |-> san]
 
@@ -36,7 +36,7 @@ SrcPieces(b) ==
            fileurl == IF b.local THEN <<Lit("file:///"), Taint("LocalSrcPath", "path")>>
                       ELSE IF b.remote THEN <<Lit("file:///"), Taint("RemoteSrcPath", "path")>>
                       ELSE <<>> IN
-       CASE r \in {"github3", "github3ver", "github3pseudo"} ->
+       CASE r \in {"github3", "github3ver", "github3verodd", "github3pseudo"} ->
               <<Lit("https://github.com/"), Taint("rel.owner", "path"), Lit("/"), Taint("rel.repo", "none"), Lit("/blob/"),
                 (IF r = "github3" THEN Lit("master") ELSE Taint("rel.version", "query")), Lit("/"), Taint("rel.rest", "path"), Lit("#L"), Lit("line")>>
          [] r \in {"golangx", "golangxver"} ->
@@ -49,9 +49,10 @@ Branch(b) ==
   IF b.loc = "Stdlib" THEN "version"
   ELSE LET r == IF b.rel = "vendorgithub" THEN "github3" ELSE b.rel IN
        CASE r \in {"github3", "golangx"} -> "master"
-         [] r \in {"github3ver", "github3pseudo", "golangxver"} -> "version"
+         [] r \in {"github3ver", "github3verodd", "github3pseudo", "golangxver"} -> "version"
          \* other hosts: the tag is only handed back together with a file:/// link
          [] r = "otherhostver" -> IF b.local \/ b.remote THEN "version" ELSE ""
+         \* "dir@/...": the text between '@' and the next '/' is empty, so there is no version ("otherhostatdir" falls under OTHER)
          [] OTHER -> ""
 
 (* pkgURL (html.go:84-114) *)
